@@ -371,8 +371,13 @@ def gen_world_case(r, nseg, max_cmds, deep=False, revert_heavy=False):
             g.emit(("O", s, len(o.segs[s]["snaps"]) - 1))
             g.stats["head_opens"] += 1
         elif c < 75:
-            s = r.below(len(o.segs))
-            i = r.below(len(o.segs[s]["snaps"]))
+            multi = [x for x in range(len(o.segs)) if len(o.segs[x]["snaps"]) > 1]
+            if multi and r.chance(3, 4):
+                s = r.choice(multi)
+                i = r.below(len(o.segs[s]["snaps"]) - 1)       # strictly inside the segment
+            else:
+                s = r.below(len(o.segs))
+                i = r.below(len(o.segs[s]["snaps"]))
             g.emit(("O", s, i))
             g.stats["mid_opens" if i < len(o.segs[s]["snaps"]) - 1 else "head_opens"] += 1
         elif c < 88:
@@ -732,6 +737,17 @@ def gen_session_case(r, nseg, fail_heavy=False, deep=False):
             stats["script_items"] += len(items)
             base_keys = set(so.cache.keys())
             stats["overlay_beyond_base"] += sum(1 for it in items if it[0] == "I" and (it[1], it[2]) not in base_keys)
+    if r.chance(1, 3):
+        # misuse: calls on sessions that do not exist, a commit naming an unknown segment / index
+        for bad in (("a", len(so.sessions) + 2, True, [("I", U.names[0], U.keys[0], b"\x01")]),
+                    ("G", len(g.o.segs) + 3), ("g", 0, len(g.o.idxs) + 2),
+                    ("r", len(so.sessions) + 1, False, [])):
+            ops.append(bad)
+            so.step(bad)
+        q = r.below(len(so.sessions))
+        ops.append(("a", q, True, [("P", U.names[0], ())]))
+        so.step(ops[-1])
+        stats["calls"] += 1
     return U, list(ops), stats
 
 
